@@ -64,6 +64,12 @@ def c10(run):
     for w in spaces:
         cases.append(("iban", w + "DE89" + w + w + "370400440532013000" + w))
         cases.append(("bic", "GENO" + w + "DEM1GLS" + w))
+    # … and as the ONLY blemish of an otherwise compact upper-case text (after, before, inside): explicit pairs
+    single = []
+    for w in spaces:
+        for kind, base in (("iban", "DE89370400440532013000"), ("bic", "GENODEM1GLS"), ("bic", "DEUTDEFF")):
+            for var in (base + w, w + base, base[:4] + w + base[4:]):
+                single.append((kind, base, var))
     # texts that carry a word of the source code (whatever the code singles out is written in it) before /
     # after a valid IBAN or BIC, each with explicit variants: lower, upper, swapped case, a blank after every
     # character
@@ -77,7 +83,7 @@ def c10(run):
                 for var in (base.lower(), base.upper(), base.swapcase(), " ".join(base), base.title()):
                     if var != base:
                         explicit.append((kind, base, var))
-    for case in cases + explicit:
+    for case in cases + single + explicit:
         kind, base = case[0], case[1]
         if len(case) == 3:
             var = case[2]
